@@ -1,5 +1,6 @@
 import FimVerif.Drivers.Proto
 import FimVerif.Model.Sliver
+import Std.Data.HashMap
 open Lean FimVerif.Proto FimVerif.Sliver FimVerif.Gen.SliverMap
 
 /-! Line protocol for C02.  Values: ["s",str] ["e",cls,name] ["o",cls,text] ["j",cls,text] ["t",[str]] ["b",bool] ["ip",str].
@@ -66,40 +67,88 @@ def exc (r : Except Err Json) : Json :=
   | .ok j => j
   | .error e => .arr #[.str "err", .str e]
 
-def runOps (T : KindTable) (p : Props String) : List Json → List Json
+def getReply (T : KindTable) (p : Props String) (k : String) : Json :=
+  match getProperty concrete T p k with
+  | .ok (some v) => jsonOfVal v
+  | .ok none => .null
+  | .error e => .arr #[.str "err", .str e]
+
+def errJ (e : Err) : Json := .arr #[.str "err", .str e]
+
+/-- the object a JSONData subclass makes from None -/
+def wrapNoneVal (cls : String) : Val := .jdata cls "{}"
+
+/-! Speed only: after every operation the node's property map (a chain of closures built by `Props.update` /
+`Props.set`) is re-represented as a hash map over the graph properties the model can look at (`dom`: the kind's
+to-rows and whatever the node held at the start); the model functions are applied unchanged. -/
+def freezeMap (dom : List String) (p : Props String) : Std.HashMap String String :=
+  dom.foldl (fun m g => match p g with | some v => m.insert g v | none => m) {}
+
+def ofMap (hm : Std.HashMap String String) : Props String := fun x => hm[x]?
+
+/-- ops on one element: graph node properties `p0` and the element's cached name `nm` -/
+def runOps (dom : List String) (T : KindTable) (E : ElemClass) (p0 : Props String) (nm : Json) : List Json → List Json
   | [] => []
   | op :: rest =>
+    let hm := freezeMap dom p0
+    let p := ofMap hm
     match op with
     | .arr #[.str "set", .str k, v] =>
       match valOfJson v with
-      | some x => .str "ok" :: runOps T (setProperty concrete T freshFields p k x) rest
-      | none => .str "bad-value" :: runOps T p rest
+      | some x => .str "ok" :: runOps dom T E (setProperty concrete T freshFields p k x) nm rest
+      | none => .str "bad-value" :: runOps dom T E p nm rest
     | .arr #[.str "setnone", .str k] =>
-      -- set_property(k, None) is unset_property(k)
-      match unsetProperty p k with
-      | .ok p' => .str "ok" :: runOps T p' rest
-      | .error e => .arr #[.str "err", .str e] :: runOps T p rest
-    | .arr #[.str "setprops", .str k, v] =>
-      match setProperties1 concrete T freshFields p k (valOfJson v) with
-      | .ok p' => .str "ok" :: runOps T p' rest
-      | .error e => .arr #[.str "err", .str e] :: runOps T p rest
+      match setPropertyOpt concrete T E freshFields p k none with
+      | .ok p' => .str "ok" :: runOps dom T E p' nm rest
+      | .error e => errJ e :: runOps dom T E p nm rest
+    | .arr #[.str "setprops", .arr kvs] =>
+      -- [[k, v|null], ...]
+      let kw := kvs.toList.filterMap fun kv => match kv with
+        | .arr #[.str k, v] => some (k, valOfJson v)
+        | _ => none
+      match setProperties concrete T freshFields p kw with
+      | .ok p' => .str "ok" :: runOps dom T E p' nm rest
+      | .error e => errJ e :: runOps dom T E p nm rest
     | .arr #[.str "attrset", .str a, v] =>
-      match (routesOf T.kind).find? (fun r => r.attr == a) with
-      | none => .str "no-route" :: runOps T p rest
+      match E.routes.find? (fun r => r.attr == a) with
+      | none => .str "no-route" :: runOps dom T E p nm rest
       | some r =>
-        match attrAssign concrete T freshFields p r (valOfJson v) with
-        | .ok p' => .str "ok" :: runOps T p' rest
-        | .error e => .arr #[.str "err", .str e] :: runOps T p rest
+        let res := attrAssign concrete T E wrapNoneVal freshFields p r (valOfJson v)
+        if r.get == GetForm.cached then
+          -- the name setter caches the value before or after the write, as the table says
+          match res with
+          | .ok p' => .str "ok" :: runOps dom T E p' v rest
+          | .error e => errJ e :: runOps dom T E p (if r.cacheAfterWrite || r.onValue == OnValue.none then nm else v) rest
+        else
+          match res with
+          | .ok p' => .str "ok" :: runOps dom T E p' nm rest
+          | .error e => errJ e :: runOps dom T E p nm rest
+    | .arr #[.str "attrget", .str a] =>
+      match E.routes.find? (fun r => r.attr == a) with
+      | none => .str "no-route" :: runOps dom T E p nm rest
+      | some r =>
+        (match r.get with
+         | .cached => nm
+         | .plain => getReply T p r.prop
+         | .dataOf =>
+           match getProperty concrete T p r.prop with
+           | .ok (some (.jdata _ t)) => .arr #[.str "data", .str t]
+           | .ok (some v) => jsonOfVal v
+           | .ok none => .null
+           | .error e => errJ e) :: runOps dom T E p nm rest
     | .arr #[.str "unset", .str k] =>
       match unsetProperty p k with
-      | .ok p' => .str "ok" :: runOps T p' rest
-      | .error e => .arr #[.str "err", .str e] :: runOps T p rest
-    | .arr #[.str "get", .str k] =>
-      (match getProperty concrete T p k with
-       | .ok (some v) => jsonOfVal v
-       | .ok none => .null
-       | .error e => .arr #[.str "err", .str e]) :: runOps T p rest
-    | _ => .str "bad-op" :: runOps T p rest
+      | .ok p' => .str "ok" :: runOps dom T E p' nm rest
+      | .error e => errJ e :: runOps dom T E p nm rest
+    | .arr #[.str "get", .str k] => getReply T p k :: runOps dom T E p nm rest
+    | _ => .str "bad-op" :: runOps dom T E p nm rest
+
+def propsOfJson (kvs : Std.TreeMap.Raw String Json compare) : Props String :=
+  kvs.foldl (fun acc g v => match v with | .str x => acc.set g x | _ => acc) Props.empty
+
+def domOf (T : KindTable) (kvs : Std.TreeMap.Raw String Json compare) : List String :=
+  let gs := T.toRows.map (·.gprop)
+  kvs.foldl (fun acc g _ => if acc.contains g then acc else g :: acc) gs
 
 def handle (j : Json) : Json :=
   match j with
@@ -122,10 +171,36 @@ def handle (j : Json) : Json :=
     match treeOfJson t with
     | some s => ok (Json.mkObj [("back", exc ((graphRoundtrip (P := String) concrete s).map jsonOfTree))])
     | none => err "bad-args"
+  | .arr #[.str "graphx", t, ps] =>
+    -- the graph path below a parent that is there (`["present", id, class]`) or is not (`["missing", id]`)
+    match treeOfJson t with
+    | some s =>
+      let (g0, parent) : Except Err (AGraph String) × Option String :=
+        match ps with
+        | .arr #[.str "present", .str pid, .str cls] => (addNode AGraph.empty none pid cls "has" Props.empty, some pid)
+        | .arr #[.str "missing", .str pid] => (.ok AGraph.empty, some pid)
+        | _ => (.ok AGraph.empty, none)
+      let r : Except Err (Sliver Val) :=
+        match g0 with
+        | .error e => .error e
+        | .ok g =>
+          match addSliver concrete g parent s with
+          | .error e => .error e
+          | .ok g' => buildDeep concrete g' 5 s.kind (s.nodeId.getD "")
+      ok (Json.mkObj [("back", exc (r.map jsonOfTree))])
+    | none => err "bad-args"
   | .arr #[.str "elem", .str kind, .obj kvs, .arr ops] =>
-    -- the element's graph node as the store holds it: {graph property: string}
-    let p : Props String := kvs.foldl (fun acc g v => match v with | .str x => acc.set g x | _ => acc) Props.empty
-    ok (.arr (runOps (tableOf kind) p ops.toList).toArray)
+    -- the element's graph node as the store holds it: {graph property: string}; element class = base class of the kind
+    let p := propsOfJson kvs
+    let nm : Json := match kvs.get? "Name" with | some (.str s) => .arr #[.str "s", .str s] | _ => .null
+    ok (.arr (runOps (domOf (tableOf kind) kvs) (tableOf kind) (baseClassOf kind) p nm ops.toList).toArray)
+  | .arr #[.str "elemc", .str cls, .obj kvs, .arr ops] =>
+    match classOf? cls with
+    | none => err "no-class"
+    | some E =>
+      let p := propsOfJson kvs
+      let nm : Json := match kvs.get? "Name" with | some (.str s) => .arr #[.str "s", .str s] | _ => .null
+      ok (.arr (runOps (domOf (tableOf E.kind) kvs) (tableOf E.kind) E p nm ops.toList).toArray)
   | _ => err "bad-request"
 
 def main : IO Unit := run handle
